@@ -42,3 +42,20 @@ Lemma src_expected_prefixes :
   SrcCodec.V2.GenericClaims_ExpectedPrefixes = m_prefixes KGeneric.
 Proof. repeat split; reflexivity. Qed.
 Print Assumptions src_serialize.
+
+(* ClaimsData.hash of both libraries: the id is the digest of the marshalled claims data and of nothing else - fails
+   exactly when json.Marshal of the claims data fails, with that error; otherwise the unpadded base32 text of what a
+   freshly made hash object, written that text once, sums to.  The hash object is an opaque value: for every reading of
+   sha512.New512_256, Write and Sum.  No buffer, pool or earlier call enters. *)
+Section Hash.
+  Context {V : Type} (vnil : V) (b32 : string -> string) (hnew : V) (hsum : V -> string -> string) (hwrite : V -> string -> V).
+  Definition id_of (text : string) : string := b32 (hsum (hwrite hnew text) "").
+  Lemma src_hash (marshalled : string * option string) :
+    SrcCodec.V2.ClaimsData_hash V vnil b32 marshalled hnew hsum hwrite
+    = match snd marshalled with Some e => (""%string, Some e) | None => (id_of (fst marshalled), None) end.
+  Proof. destruct marshalled as [j [e|]]; reflexivity. Qed.
+  Lemma src_v1_hash (marshalled : string * option string) :
+    SrcCodec.V1.ClaimsData_hash V vnil b32 marshalled hnew hsum hwrite
+    = match snd marshalled with Some e => (""%string, Some e) | None => (id_of (fst marshalled), None) end.
+  Proof. destruct marshalled as [j [e|]]; reflexivity. Qed.
+End Hash.
